@@ -418,6 +418,12 @@ fn replay(path: &str, mut report: Report) -> Report {
         return report;
     }
     let want = v["case"]["shape"].as_str().unwrap_or("").to_string();
+    if want.is_empty() || v["case"].get("twin").is_some() {
+        // a derive/std twin case: re-run the (small) twin catalogue
+        crate::twins::run_all("C01", &mut report);
+        report.exhaustive = false;
+        return report;
+    }
     let args = Args { property: "C01".into(), tier: vcommon::Tier::Thorough, out: String::new(), replay: None, extra: vec![] };
     let (shapes, full_depth, _) = shape_space(&args);
     for s in shapes.iter().filter(|s| s.text() == want) {
